@@ -260,7 +260,7 @@ def run_check(prop, tier, seed, replay):
             if 'crash' in r:
                 violations.append(('mode-crashed %s: %s' % (m['mode'], r['crash'][-400:]), None, True))
             for v in r.get('violations') or []:
-                if v.get('property', prop) == prop:
+                if (v.get('property') or prop) == prop:   # a mode that does not name a property reports for the one being checked
                     violations.append((v.get('msg', '')[:400], v.get('replay'), False))
     # --- proof / tie breakage without a failing input
     if proof_broken:
